@@ -37,6 +37,7 @@ META["text"] += (" (R7, N) interleave_values: a kind that was not requested star
                  "counter and ratio, the kind placed has a maximal ratio (all 27 orderings), one placement per position, position 0 and the "
                  "empty request follow the same protocol -- from which exact counts follow by hand.")
 META["text"] += " R6 also requires the helper's placement order: one-vote values first, two-vote values overwrite them, as in the core."
+META["text"] += ' R5 also: the ONEAudit estimate places one-vote and two-vote errors under independent tests (both rates can be positive).'
 
 
 def run(chk):
@@ -452,6 +453,40 @@ def r5(chk):
                 and norm(fin[0].value) == ACC and whole_collection(l.iter) and norm(l.iter) == f"{con}.assertions.items()" \
                 and sbody is not None and not [x for x in walk_local(l) if isinstance(x, ast.Break)]
             detail = dict(problems=bad, updating_paths=n_upd_paths)
+    # ONEAudit without MVRs: the assumed errors are written into the data at *both* rates, independently of each other, the
+    # one-vote values first and the two-vote values over them (the same protocol as Assertion.find_sample_size, C16.R4)
+    place = [(t, v, s0) for t, v, s0 in stores(fn) if isinstance(t, ast.Subscript) and isinstance(v, ast.Call)
+             and norm(v.func).endswith(".make_overstatement")]
+    okp = False
+    detp = {}
+    if len(place) == 2:
+        def ctl(s0):
+            out = []
+            n_, p_ = s0, parent(s0)
+            while p_ is not None and p_ is not fn:
+                if isinstance(p_, ast.If):
+                    out.append((id(p_), n_ in p_.body, norm(p_.test)))
+                n_, p_ = p_, parent(p_)
+            return out
+        info = []
+        for t, v, s0 in sorted(place, key=lambda z: z[2].lineno):
+            kw = {k.arg: norm(k.value) for k in v.keywords}
+            overs = kw.get("overs", norm(v.args[0]) if v.args else None)
+            c_ = ctl(s0)
+            idx_def = [x for x in walk_local(fn) if isinstance(x, ast.Assign) and norm(x.targets[0]) == norm(t.slice) and parent(x) is parent(s0)]
+            info.append(dict(overs=overs, own=c_[0][2] if c_ else None, own_in_body=c_[0][1] if c_ else None, outer=[(a, b) for a, b, _ in c_[1:]],
+                             idx=norm(idx_def[-1].value) if idx_def else None, data=norm(t.value)))
+        a_, b_ = info
+        okp = a_["overs"] == "1/2" and b_["overs"] == "1" and a_["own"] == "self.error_rate_1" and b_["own"] == "self.error_rate_2" \
+            and a_["own_in_body"] and b_["own_in_body"] and a_["outer"] == b_["outer"] and a_["data"] == b_["data"] \
+            and a_["idx"] == f"np.arange(0,len({a_['data']}),math.floor(1/self.error_rate_1))" \
+            and b_["idx"] == f"np.arange(0,len({b_['data']}),math.floor(1/self.error_rate_2))"
+        detp = dict(one_vote=a_, two_vote=b_)
+    chk.ob("C16.R5", where, "oneaudit-errors-at-both-rates", okp,
+           "when the ONEAudit estimate is made before any MVRs, one-vote overstatements are written at every floor(1/rate_1)-th "
+           "position if rate_1 is set and, independently, two-vote overstatements at every floor(1/rate_2)-th if rate_2 is set "
+           "(the second under the same outer conditions as the first, not in its else)", node=place[0][2] if place else fn,
+           strength="N", **{k: str(v)[:200] for k, v in detp.items()})
     chk.ob("C16.R5", where, "audit-estimate-is-max-over-unproved", ok,
            "each contest's new sample size is the maximum, from 0, over all its not-yet-confirmed assertions of the assertion's estimate "
            "(one max-update on every non-raising path for an unproved assertion, none for a proved one)", node=fn, **detail)
